@@ -2009,21 +2009,27 @@ fn build_hvcc_box(hevc_config: &HevcConfig) -> Vec<u8> {
     // configurationVersion = 1
     payload.push(1);
 
-    // general_profile_space (2) + general_tier_flag (1) + general_profile_idc (5)
-    let byte1 = (general_profile_space << 6)
-        | (if general_tier_flag { 0x20 } else { 0 })
-        | (general_profile_idc & 0x1f);
-    payload.push(byte1);
+    if let Some(general) = crate::codec::h265::hvcc_general_profile_tier_level(&hevc_config.sps) {
+        // profile space / tier / profile_idc, compatibility flags, constraint flags and
+        // level_idc: the twelve bytes of the SPS's general profile_tier_level(), verbatim
+        payload.extend_from_slice(&general);
+    } else {
+        // SPS too short to hold them: Main profile defaults
+        // general_profile_space (2) + general_tier_flag (1) + general_profile_idc (5)
+        let byte1 = (general_profile_space << 6)
+            | (if general_tier_flag { 0x20 } else { 0 })
+            | (general_profile_idc & 0x1f);
+        payload.push(byte1);
 
-    // general_profile_compatibility_flags (4 bytes)
-    // For simplicity, set Main profile compatibility (bit 1)
-    payload.extend_from_slice(&[0x60, 0x00, 0x00, 0x00]);
+        // general_profile_compatibility_flags (4 bytes): Main profile compatibility (bit 1)
+        payload.extend_from_slice(&[0x60, 0x00, 0x00, 0x00]);
 
-    // general_constraint_indicator_flags (6 bytes)
-    payload.extend_from_slice(&[0x90, 0x00, 0x00, 0x00, 0x00, 0x00]);
+        // general_constraint_indicator_flags (6 bytes)
+        payload.extend_from_slice(&[0x90, 0x00, 0x00, 0x00, 0x00, 0x00]);
 
-    // general_level_idc
-    payload.push(general_level_idc);
+        // general_level_idc
+        payload.push(general_level_idc);
+    }
 
     // min_spatial_segmentation_idc (12 bits) with reserved (4 bits)
     payload.extend_from_slice(&[0xf0, 0x00]);
